@@ -348,7 +348,7 @@ Sig2Accept(e) ==
       [] e.op = "pokor_ver" -> Verdict(e, PokorDef(e))
       [] e.op = "sokdl_ver" -> Verdict(e, SokdlDef(e))
       [] e.op = "sokor_ver" -> Verdict(e, SokorDef(e))
-      [] e.op = "vbnn_ver"  -> Verdict(e, VbnnDef(e))
+      [] e.op = "vbnn_ver"  -> e.crash = 0 /\ Verdict(e, VbnnDef(e))
       [] e.op = "vbnn_gen"  -> EcGenOk(e)
       [] e.op = "ers_ver"   -> Verdict(e, ErsDef(e))
       [] e.op = "smlers_ver" -> Verdict(e, SmlDef(e))
@@ -383,7 +383,10 @@ Sig2KnownKey(e) ==
             IF Accepted(e) /\ ~OrRange(SokorStmt(e), Ord(e)) /\ SokorLax(e)
             THEN "C05-sok-scalars-not-range-checked" ELSE ""
       [] e.op = "vbnn_ver" ->
-            IF Accepted(e) /\ ~InRange(e.z, Ord(e)) /\ VbnnLax(e)
+            IF e.crash # 0
+            THEN \* the hash buffer is sized with twice the encoding of R: for R = O the encoding of Z is written behind it
+                 (IF RepOk(e, e.R) /\ PAbs(e, e.R).inf THEN "C05-vbnn-buffer-sized-by-r" ELSE "")
+            ELSE IF Accepted(e) /\ ~InRange(e.z, Ord(e)) /\ VbnnLax(e)
             THEN "C05-vbnn-z-not-range-checked" ELSE ""
       [] e.op = "ers_ver" ->
             \* the embedded signatures of knowledge are verified by cp_sokor_ver, the trapdoor by the ring verifier itself
